@@ -251,6 +251,8 @@ def emitted(node: ast.AST, self_n: str) -> Optional[Set[str]]:
             if isinstance(arg, (ast.GeneratorExp, ast.ListComp)):
                 inner = emitted(arg.elt, self_n)
                 return None if inner is None else inner | sep
+            if isinstance(arg, ast.Call) and call_name(arg) == ("map",) and len(arg.args) == 2 and unparse(arg.args[0]) in ("str", "repr"):
+                return set(DIGITS) | sep  # "".join(map(str, entries))
             return None
     if isinstance(node, ast.JoinedStr):
         out: Set[str] = set()
